@@ -238,6 +238,21 @@ func main() {
 			e.Bool("groupNotExistsPerBin", len(incs) == 1 && incs[0] == "n.groupByNotExists[AggBin[uint32]{MID: n.extractMID(seq.LID(lid)), Source: groupBySource}]++",
 				"the tally is keyed by the document's time bin (repaired) rather than by the source alone")
 		}
+		// ValueBySource: the token cache is looked up and stored under the same key (the source)
+		if ag != nil {
+			if fd := ag.Func("SourcedNodeIterator", "ValueBySource"); fd == nil {
+				e.Missing("tokenCacheKeys", "ValueBySource not found")
+			} else {
+				var keys []string
+				ast.Inspect(fd.Body, func(n ast.Node) bool {
+					if x, ok := n.(*ast.IndexExpr); ok && ag.Render(x.X) == "s.tokensCache" {
+						keys = append(keys, ag.Render(x.Index))
+					}
+					return true
+				})
+				e.Strs("tokenCacheKeys", keys, "ValueBySource: index expressions of s.tokensCache (lookup, store), source order")
+			}
+		}
 		if ag == nil {
 		} else if fd := ag.Func("", "provideExtractTimeFunc"); fd == nil {
 			e.Missing("extractTimeRule", "provideExtractTimeFunc not found")
